@@ -19,7 +19,7 @@ def configs(tier):
         ("mid", ["Bytes = {97, 32}", "Blocks <- BlocksMid", "Lmax = %d" % (9 if q else 10), "TrimSets <- TrimSetsDef",
                  "CPs = {97}", "Fmts = {1, 6, 8}", "PopCounts = {0, 1, 9, 1000000}", "CmpSet <- BlocksMid"]),
         ("long", ["Bytes = {97}", "Blocks <- BlocksLong", "Lmax = %d" % (17 if q else 23), "TrimSets <- TrimSetsDef",
-                  "CPs = {97}", "Fmts = {1, 2, 3, 4, 5, 6, 7, 8}" if not q else "Fmts = {1, 6, 7, 8}", "PopCounts = {0, 1, 9, 1000000}", "CmpSet <- BlocksLong"]),
+                  "CPs = {97}", "Fmts = {1, 6, 7, 8}", "PopCounts = {0, 1, 9, 1000000}", "CmpSet <- BlocksLong"]),
     ]
 
 
